@@ -307,6 +307,43 @@ CHECKS["C12"] = {
     "bounds": {"quick": "as described", "thorough": "larger buffers, two peers"},
 }
 
+CHECKS["C13"] = {
+    "harnesses": [
+        H("c13.VH_listener", {"CONNS": 2, "L": 3}, {"CONNS": 3, "L": 3}, covers=["delivered and read", "consumed or rejected", "closed"], weight=3, **_envonly),
+        H("c13.VH_listener", {"params": {"CONNS": 2, "L": 2}, "preempt": 1}, {"params": {"CONNS": 2, "L": 3}, "preempt": 2}, variant="preempt", covers=["delivered and read", "closed"], weight=5, **_envonly),
+        H("c13.VH_close_pending", {"CONNS": 2}, {"CONNS": 3}, covers=["closed with pending connections"], **_envonly),
+        H("c13.VH_close_pending", {"params": {"CONNS": 2}, "preempt": 1}, {"params": {"CONNS": 3}, "preempt": 2}, variant="preempt", covers=["closed with pending connections"], weight=2, **_envonly),
+    ],
+    "level_text": "bounded model checking of the real WrapListener / listener.loop / handle / Accept / Close / pipeConnection / listenerHandler in the engine's goroutine mode (cooperative schedules exhaustively, plus 1-2 pre-emptions at channel/sync operations): 2-3 connections with symbolic streams and segmentation, one content-dependent terminal route; every connection that falls through is delivered by Accept exactly once and reads its own client's stream from the first byte although matching buffers are pooled, connections consumed or rejected by layer4 are never delivered and are closed, after Close Accept reports closure and every pending connection is either delivered or closed, and nothing stays blocked (deadlock = violation)",
+    "level_note": "scripted base listener (yields the connections, then blocks until closed); the consumer accepts after the handlers ran (slow consumer) or, with pre-emption, in between; TLS connection state hand-over (tlsConnection) is not exercised; sync.Pool returns the most recently pooled buffer (LIFO) - the adversarial 'any pooled buffer' mode is used in the thorough tier; not natively replayable",
+    "assumptions": ["scripted base listener and client connections", "sync.Pool model: Get returns the last Put object, or New()"],
+    "outside": ["more than 3 connections", "TLS termination before hand-over", "more than 2 pre-emptions"],
+    "bounds": {"quick": "2 connections, streams <= 3 bytes, <= 1 pre-emption", "thorough": "3 connections, <= 2 pre-emptions"},
+}
+CHECKS["C08"] = {
+    "harnesses": [
+        H("c13.VH_listener", {"CONNS": 2, "L": 3}, {"params": {"CONNS": 3, "L": 3}, "pool_adversarial": True}, variant="pool", covers=["delivered and read"], weight=3, **_envonly),
+        H("c01.VH_step_tee", {"MAXB": 3000}, {"MAXB": 5000}, covers=["recorder ran", "bytes buffered at handler time"], weight=8, validate=False),
+    ],
+    "level_text": "cross-talk half only: bounded model checking of pooled matching-buffer lifetime - two or three connections go through the listener wrapper, the first one is handed over (its prefetched bytes still unread) before the next one takes a buffer from the pool and prefetches; every delivered connection must read exactly its own client's bytes. The tee branch/main-chain pair is checked the same way (each reads the whole stream once). The data-race half of the property is NOT decided",
+    "level_note": "data races (plain accesses under the real scheduler) are outside a symbolic executor that pre-empts only at synchronisation operations and assumes data-race freedom elsewhere; see DESIGN section 5 C08. One race (round_robin's plain read of its atomic counter) was found by reading and repaired",
+    "assumptions": ["sync.Pool: Get returns the last Put object (quick) / any pooled object or a fresh one (thorough)"],
+    "outside": ["data races", "more than 3 simultaneous connections", "Server.handle (non-listener) with a tee branch outliving the handler"],
+    "bounds": {"quick": "2 connections", "thorough": "3 connections, adversarial pool"},
+}
+CHECKS["C09"] = {
+    "harnesses": [
+        H("c09.VH_udp", {"params": {"KIND": k, "DGRAMS": 2, "CLIENTS": 2}, "preempt": (1 if k == 0 else 0)}, {"params": {"KIND": k, "DGRAMS": 2, "CLIENTS": 2}, "preempt": 1}, variant=f"kind{k}",
+          covers=["served"] + (["datagram read"] if k else []), weight=4, **_envonly) for k in range(3)
+    ] + [H("c09.VH_udp", {"params": {"KIND": 0, "DGRAMS": 3, "CLIENTS": 1}, "preempt": 1}, {"params": {"KIND": 0, "DGRAMS": 4, "CLIENTS": 1}, "preempt": 2}, variant="burst",
+           covers=["served", "several virtual connections"], weight=4, **_envonly)],
+    "level_text": "bounded model checking of the real Server.servePacket (reader goroutine, select loop, per-client packetConn, closure notifications), packetConn.Read/Write/Close and Server.handle in the engine's goroutine mode on the virtual clock: a burst of 2-4 datagrams from one or two clients against handlers that return at once, read once, or echo; all cooperative schedules plus one pre-emption at a channel/go/sync operation and every choice of ready select case; asserted: no panic in any goroutine (send on closed channel, double close), no deadlock, the loop returns when the socket fails, every read of a virtual connection is the next datagram of its own client (in-order subsequence), replies go to the client whose datagram they answer",
+    "level_note": "scripted net.PacketConn; datagrams <= 4 bytes with symbolic content; idle expiry exercised by advancing the virtual clock by 31 s; not natively replayable (schedules)",
+    "assumptions": ["scripted UDP socket", "goroutine schedules: cooperative + <= 1-2 pre-emptions at visible operations; plain memory accesses are not pre-emption points"],
+    "outside": ["more than 4 datagrams / 2 clients", "datagrams larger than the reader's buffer (partial reads)", "real sockets"],
+    "bounds": {"quick": "2-3 datagrams, 1 pre-emption", "thorough": "3-4 datagrams, 1-2 pre-emptions"},
+}
+
 NOT_APPLICABLE = {
     "C15": "Caddyfile->JSON adaptation and JSON round-trip run through the Caddyfile lexer, encoding/json reflection and Caddy's module loader over an unbounded configuration grammar; this cannot be encoded by a hand-written go/ssa symbolic executor (reflection refused, inputs are programs of a grammar, not bounded bytes/integers)",
 }
